@@ -1730,7 +1730,8 @@ def op_x_hostile(req):
             import importlib.util
             native = data[:4] == importlib.util.MAGIC_NUMBER
             limit = cpu_small if len(data) <= 65536 else cpu_big
-            if native:
+            if native or req.get("mem"):
+                # built-in marshal path, or an adversarial structure: can hang or die inside C code / deep recursion
                 r = hostile_one_forked(data, path, mem, limit)
             else:
                 r = hostile_one(data, path, mem)
@@ -1747,7 +1748,7 @@ def op_x_hostile(req):
             for ev in r["audit"]:
                 problems.append(["audit", ev, ""])
             if r["cpu"] > limit and not r.get("timeout"):
-                again = [(hostile_one_forked(data, path, False, limit) if native else hostile_one(data, path))["cpu"] for _ in range(2)]
+                again = [(hostile_one_forked(data, path, False, limit) if (native or req.get("mem")) else hostile_one(data, path))["cpu"] for _ in range(2)]
                 if min(again) > limit:
                     problems.append(["cpu", "%.1fs for %d bytes" % (min([r["cpu"]] + again), len(data)), ""])
                 else:
